@@ -60,7 +60,7 @@ def run(ck, prog, tier, load):
         ok = False
         for c, lab, a in gs:
             n = norm_cmp(c, lab) if isinstance(lab, bool) else None
-            if n and n[0] == "Le" and n[3] is True and e_calls(n[1], r"Parser::parse_metadata$") and any(r[0] == "arg" and r[2] == "max_size" for r in e_roots(n[2])) and not e_calls(n[2]):
+            if n and n[0] == "Le" and n[3] is True and e_calls(n[1], r"Parser::parse_metadata$") and root_is(n[2], args_of_type(parse, r"^usize$")) and not e_calls(n[2]):
                 ok = True
         ck.ob("C14-a.refuse-before-buffering", parse.npath, ok, parse, bb,
               "need-more return with a known payload length is dominated by `length <= max_size` (else the caller keeps buffering an oversized frame)")
@@ -73,7 +73,7 @@ def run(ck, prog, tier, load):
         ok = False
         for c, lab, a in parse.guards(bb):
             n = norm_cmp(c, lab) if isinstance(lab, bool) else None
-            if n and n[0] == "Le" and n[3] is True and e_calls(n[1], r"parse_metadata$") and any(r[0] == "arg" and r[2] == "max_size" for r in e_roots(n[2])):
+            if n and n[0] == "Le" and n[3] is True and e_calls(n[1], r"parse_metadata$") and root_is(n[2], args_of_type(parse, r"^usize$")):
                 ok = True
         ck.ob("C14-a.delivered-within-max", "%s|%s" % (parse.npath, short(e, 3)), ok, parse, bb, "a delivered frame is dominated by `length <= max_size`")
 
@@ -118,7 +118,7 @@ def run(ck, prog, tier, load):
         okm = False
         if rs:
             gs = meta.guards(rs[0][0])
-            okm = any(any(r[0] == "arg" and r[2] == "server" for r in e_roots(c)) for c, lab, a in gs) and any(e_bins(c, ("BitAnd",)) for c, lab, a in gs)
+            okm = any(root_is(c, args_of_type(meta, r"^bool$")) for c, lab, a in gs) and any(e_bins(c, ("BitAnd",)) for c, lab, a in gs)
         ck.ob("C14-c.masking-%s" % name, meta.npath, okm, meta, rs[0][0] if rs else None, "Err(%s) under a test of the mask bit and of the role" % name)
     # wide length fields: marker, width, has-enough-bytes
     for fn, marker, minlen in ((r"core::num::<impl u16>::from_be_bytes$", 126, 4), (r"core::num::<impl u64>::from_be_bytes$", 127, 10)):
@@ -308,6 +308,6 @@ def run(ck, prog, tier, load):
     if g is not None:
         for bb, e in g.ret_exprs():
             guid_ok = guid_ok or any(c[3] == WS_GUID for c in e_consts(e))
-    order_ok = len(upd) == 2 and any(r[0] == "arg" and r[2] == "key" for r in e_roots(upd[0])) and e_has_const(upd[1], r"WS_GUID$")
+    order_ok = len(upd) == 2 and any(r[0] == "arg" for r in e_roots(upd[0])) and e_has_const(upd[1], r"WS_GUID$")
     ck.ob("C14-e.accept-key", hk.npath, guid_ok and order_ok, hk, None, "hash_key = SHA1(key || WS_GUID) with WS_GUID == RFC 6455 GUID (%s), update order key,GUID (%s)" % (guid_ok, order_ok))
     ck.ob("C14-e.accept-key-len", hk.npath, hk.lty(0) == "[u8; 28]" and bool(list(hk.calls(r"encode_slice$"))), hk, None, "accept key is base64 of the 20-byte digest: [u8; 28]", nontrivial=False)
